@@ -18,7 +18,15 @@ Tie between the Lean model (Model/C04.lean) and the working tree, all parts re-r
                vs `sparseMatrix` / `stimIndices` / `SparseSession.run`.
  N  numeric    all estimator variants x batch shapes x state kinds on random operators / circuits / vectors /
                parametric states vs each other and vs oracle/c04ref.py (independent numpy), tolerance 1e-9·(1+Σ|c|).
- W  witnesses  the three findings of Props/C04.lean replayed on the real code.
+ W  witnesses  the three findings of Props/C04.lean replayed on the real code, and the compiled-circuit finding (W4).
+ G  forms      generator extensions judged by independent oracles (no model): `get_sparse_matrix` in every `format` and
+               call histories across formats; `convert_gate` on every gate kind / index order and the plain gates inside
+               parametric circuits; documented rejections; compiled circuits used through their public accessors in
+               histories; quri_parts.qulacs.simulator (`evaluate_state_to_vector`, `run_circuit`, density matrix with the
+               empty noise model, `get_marginal_probability`); state construction forms (`with_gates_applied`,
+               `with_primitive_circuit`, vector given as list / tuple / array / omitted, circuit omitted); containers and
+               bare arguments of the general estimators; parameter containers; registers wide enough for two-digit
+               qubit indices (product states; stim beyond 64 qubits).
 """
 from __future__ import annotations
 
@@ -42,6 +50,8 @@ PN = {1: "X", 2: "Y", 3: "Z"}
 K_STOP = "general-estimator.empty-params-StopIteration"
 K_SHORT = "qulacs-vector-parametric.short-params-zero-padded"
 K_SHARED = "sparse.single-qubit-label-returns-shared-table-entry"
+K_COMPILED = "compiled-circuit.gates-added-after-compile-ignored"
+FORMATS = ["csc", "csr", "bsr", "coo", "dok", "dia", "lil"]
 
 TRUSTED = [
     "Lean 4.33 kernel; axioms audited ⊆ {propext, Classical.choice, Quot.sound}",
@@ -384,12 +394,12 @@ def entry_points():
     eps = {
         "qulacs.vector": dict(one=vec, conc=qe.create_qulacs_vector_concurrent_estimator(), kind="conc", cache=qop, be="qulacs"),
         "qulacs.dm": dict(one=dmx, conc=qe.create_qulacs_density_matrix_concurrent_estimator(nm), kind="conc", cache=qop, be="qulacs"),
-        "qulacs.general.vector": dict(one=lambda o, s: gv(o, s), conc=lambda o, s: gv(o, s), kind="conc", cache=qop, be="qulacs"),
-        "qulacs.general.dm": dict(one=lambda o, s: gd(o, s), conc=lambda o, s: gd(o, s), kind="conc", cache=qop, be="qulacs"),
+        "qulacs.general.vector": dict(one=lambda o, s: gv(o, s), conc=lambda o, s: gv(o, s), kind="conc", cache=qop, be="qulacs", gen=True),
+        "qulacs.general.dm": dict(one=lambda o, s: gd(o, s), conc=lambda o, s: gd(o, s), kind="conc", cache=qop, be="qulacs", gen=True),
         "core.lift.vector": dict(one=ce.create_estimator_from_concurrent_estimator(ce.create_concurrent_estimator_from_estimator(vec)),
                                  conc=ce.create_concurrent_estimator_from_estimator(vec), kind="core", cache=qop, be="qulacs"),
         "core.general.dm": dict(one=ce.create_general_estimator_from_estimator(dmx).estimator,
-                                conc=lambda o, s: ce.create_general_estimator_from_estimator(dmx)(o, s), kind="core", cache=qop, be="qulacs"),
+                                conc=lambda o, s: ce.create_general_estimator_from_estimator(dmx)(o, s), kind="core", cache=qop, be="qulacs", gen=True),
         "core.general.from-conc": dict(one=ce.create_general_estimator_from_concurrent_estimator(qe.create_qulacs_vector_concurrent_estimator()).estimator,
                                        conc=ce.create_general_estimator_from_concurrent_estimator(qe.create_qulacs_vector_concurrent_estimator()).concurrent_estimator,
                                        kind="conc", cache=qop, be="qulacs", one_is_conc=True),
@@ -793,13 +803,17 @@ def rand_pcirc(rng, n):
                     const = 3
                 g["lin_int"] = dict(coefs=coefs, const=const)
             gates.append(g)
-        elif r < 0.75:
+        elif r < 0.65:
             gates.append(dict(name=rng.choice(["H", "X", "S", "T", "SqrtX"]), t=[rng.randrange(n)]))
-        elif r < 0.9 and n >= 2:
+        elif r < 0.73 and n >= 2:
             a, b = rng.sample(range(n), 2)
             gates.append(dict(name=rng.choice(["CNOT", "CZ"]), c=[a], t=[b]))
-        else:
+        elif r < 0.78:
             gates.append(dict(name="RY", t=[rng.randrange(n)], params=[rng.randint(-20, 20) * UNIT]))
+        else:
+            # every plain gate kind (U1/U2/U3, TOFFOLI, SWAP, Pauli, PauliRotation, UnitaryMatrix, ...): inside a parametric
+            # circuit these go through the Python `convert_gate`, not through the Rust converter of plain circuits
+            gates.append(rand_gates(rng, n, 1)[0])
     if kind == "U":
         nparams = sum(1 for g in gates if g["name"].startswith("Parametric"))
     elif rng.random() < 0.2:
@@ -865,7 +879,12 @@ def add_plain_gate(c, g):
     elif nm == "Pauli":
         c.add_Pauli_gate(t, list(g["pauli"]))
     elif nm == "PauliRotation":
-        c.add_PauliRotation_gate(t, list(g["pauli"]), g["params"][0])
+        if hasattr(c, "add_PauliRotation_gate"):
+            c.add_PauliRotation_gate(t, list(g["pauli"]), g["params"][0])
+        else:  # the installed Rust ParametricQuantumCircuit has no such method (its stub declares one): add the gate object
+            from quri_parts.circuit import PauliRotation
+
+            c.add_gate(PauliRotation(t, list(g["pauli"]), g["params"][0]))
     elif nm == "UnitaryMatrix":
         c.add_UnitaryMatrix_gate(t, g["um"])
     else:
@@ -1216,26 +1235,66 @@ def rand_gates(rng, n, depth, clifford=False):
 
 
 def rand_vector(rng, n):
+    """normalised initial vector as plain data: complex amplitudes, real amplitudes (floats) or a basis vector of ints"""
     import numpy as np
 
+    r = rng.random()
+    if r < 0.1:
+        v = [0] * (2**n)
+        v[rng.randrange(2**n)] = 1
+        return v
+    if r < 0.3:
+        w = np.array([rng.gauss(0, 1) for _ in range(2**n)])
+        return (w / np.linalg.norm(w)).tolist()
     v = np.array([complex(rng.gauss(0, 1), rng.gauss(0, 1)) for _ in range(2**n)])
     return (v / np.linalg.norm(v)).tolist()
 
 
-def real_state(rng, spec, compiled=False):
+def gate_objects(n, gates):
+    from quri_parts.circuit import QuantumCircuit
+
+    c = QuantumCircuit(n)
+    for g in gates:
+        add_plain_gate(c, g)
+    return c
+
+
+def real_state(rng, spec, compiled=False, vector_class_ok=True):
+    """the state of a plain-data spec, built in one of the public ways: all gates in the constructor's circuit or a prefix
+    there and the rest through `with_gates_applied` (gate list / tuple / circuit); circuit omitted when empty; the vector
+    as list / tuple / numpy array, or omitted (QuantumStateVector starts in |0..0>)"""
+    import numpy as np
+
     from quri_parts.circuit import QuantumCircuit
     from quri_parts.core.state import GeneralCircuitQuantumState, QuantumStateVector
 
-    c = QuantumCircuit(spec["n"])
-    for g in spec["gates"]:
+    n, gates = spec["n"], spec["gates"]
+    k = len(gates)
+    if gates and rng.random() < 0.3:
+        k = rng.randint(0, len(gates))
+    c = QuantumCircuit(n)
+    for g in gates[:k]:
         add_plain_gate(c, g)
     if compiled:
         from quri_parts.qulacs.circuit.compiled_circuit import compile_circuit
 
         c = compile_circuit(c)
-    if spec.get("vec") is None:
-        return GeneralCircuitQuantumState(spec["n"], c)
-    return QuantumStateVector(spec["n"], spec["vec"], c)
+    carg = None if (k == 0 and not compiled and rng.random() < 0.5) else c
+    vec = spec.get("vec")
+    if vec is None:
+        if vector_class_ok and rng.random() < 0.15:
+            st = QuantumStateVector(n, None, carg) if rng.random() < 0.5 else QuantumStateVector(n, circuit=carg)
+        else:
+            st = GeneralCircuitQuantumState(n, carg)
+    else:
+        r = rng.random()
+        v = list(vec) if r < 0.4 else (tuple(vec) if r < 0.6 else (np.asarray(vec) if r < 0.8 else np.array(vec, dtype=np.complex128)))
+        st = QuantumStateVector(n, v, carg)
+    if k < len(gates):
+        rest = gate_objects(n, gates[k:])
+        r = rng.random()
+        st = st.with_gates_applied(rest if r < 0.3 else (list(rest.gates) if r < 0.7 else tuple(rest.gates)))
+    return st
 
 
 def tol(terms):
@@ -1297,10 +1356,23 @@ def numeric_eval(ctx: Ctx, rng, eps, n, ops, sspecs, shape, clifford, sparse_ok=
         if ep["be"] == "stim" and not clifford:
             continue
         rops = [real_est(rng, o) for o in ops]
-        rstates = [real_state(rng, sp, compiled=(ep["be"] == "qulacs" and rng.random() < 0.3)) for sp in sspecs]
         try:
-            got = [(complex(r.value), r.error) for r in ep["conc"](rops, rstates)]
-            via = "conc"
+            rstates = [real_state(rng, sp, compiled=(rng.random() < 0.3), vector_class_ok=(ep["be"] != "stim")) for sp in sspecs]
+            # containers: list / tuple; the general estimators also take a bare operator and / or a bare state
+            oarg = tuple(rops) if rng.random() < 0.25 else rops
+            sarg = tuple(rstates) if rng.random() < 0.25 else rstates
+            bare = [False, False]
+            if ep.get("gen"):
+                if a == 1 and rng.random() < 0.4:
+                    oarg, bare[0] = rops[0], True
+                if b == 1 and rng.random() < 0.4:
+                    sarg, bare[1] = rstates[0], True
+            res = ep["conc"](oarg, sarg)
+            if all(bare):
+                res = [res]
+            got = [(complex(r.value), r.error) for r in res]
+            via = "conc" + ("/bare-op" if bare[0] else "") + ("/bare-state" if bare[1] else "")
+            ctx.count("numeric.argform", via + ("/tuple" if isinstance(oarg, tuple) or isinstance(sarg, tuple) else ""))
             if rng.random() < 0.5:
                 got1 = []
                 for i in range(max(a, b)):
@@ -1317,6 +1389,9 @@ def numeric_eval(ctx: Ctx, rng, eps, n, ops, sspecs, shape, clifford, sparse_ok=
         if len(got) != len(want) or any(abs(g[0] - w) > tl or g[1] != 0.0 for g, w in zip(got, want)):
             ctx.witness(f"wrong-value:{name}", f"{name} ({via}) differs from <psi|O|psi> (oracle) or reports a non-zero error",
                         inp, {"got": str(got), "want": str(want), "tol": tl})
+    # the simulator's own evaluation of each state (vector, density matrix, marginal probabilities)
+    for spc in sspecs:
+        cmp += simulator_eval(ctx, rng, spc, inp)
     # sparse evaluation
     if sparse_ok:
         for i in range(max(a, b)):
@@ -1325,6 +1400,11 @@ def numeric_eval(ctx: Ctx, rng, eps, n, ops, sspecs, shape, clifford, sparse_ok=
             try:
                 m = get_sparse_matrix(real_est(rng, o), n)
                 psi = c04ref.state_vector(spc)
+                if rng.random() < 0.5:
+                    # the vector the library itself documents for the state
+                    from quri_parts.qulacs.simulator import evaluate_state_to_vector
+
+                    psi = np.asarray(evaluate_state_to_vector(real_state(rng, spc, compiled=rng.random() < 0.3)).vector)
                 v = complex(np.vdot(psi, m @ psi)) if m.shape[0] == 2**n else None
             except Exception as e:  # noqa: BLE001
                 v = f"raises {exc_name(e)}"
@@ -1387,47 +1467,98 @@ def numeric_param_case(ctx: Ctx, rng, P):
     o = rand_est(rng, n)
     terms = [(l, cplx(c)) for l, c in est_terms(o)]
     pvs = [[rng.uniform(-4, 4) for _ in range(nparams)] for _ in range(rng.randint(1, 3))]
+    if rng.random() < 0.2:
+        pvs[-1] = [rng.randint(-3, 3) for _ in range(nparams)]  # integer-typed parameter values
     want = [c04ref.expectation(terms, spec, p) for p in pvs]
     tl = tol(est_terms(o))
     inp = {"kind": "numeric-parametric", "n": n, "circuit": [kind, nparams, gates], "vec": vecinit, "op": enc_est(o), "params": pvs}
 
+    def angles(p):
+        """the rotation angle of each parametric gate, in gate order, at parameters p (= the primitive circuit's parameters)"""
+        out, k_ = [], 0
+        for g in spec["gates"]:
+            if g["name"] in c04ref.PARAM_BASE:
+                out.append(p[k_] if g.get("lin") is None else c04ref.lin_eval(g["lin"], p))
+                k_ += 1
+        return out
+
     def mk(compiled):
-        c = compile_parametric_circuit(pc) if compiled else pc
+        """the parametric state in one of its public construction forms, with the translation of a parameter vector:
+        plain; a prefix circuit + `with_gates_applied(trailing plain gates)`; `with_primitive_circuit()` (takes the angles)"""
+        form = rng.choice(["plain", "plain", "split", "primitive"])
+        gs, suffix = gates, []
+        if form == "split":
+            k_ = len(gates)
+            while k_ > 0 and not gates[k_ - 1]["name"].startswith("Parametric"):
+                k_ -= 1
+            k_ = rng.randint(k_, len(gates))
+            gs, suffix = gates[:k_], gates[k_:]
+        c = pc if not suffix else build_pcirc(kind, n, nparams, gs)
+        if compiled:
+            c = compile_parametric_circuit(c)
         if vecinit is None:
-            return ParametricCircuitQuantumState(n, c)
-        return ParametricQuantumStateVector(n, c, vecinit)
+            st = ParametricCircuitQuantumState(n, c)
+        else:
+            r = rng.random()
+            st = ParametricQuantumStateVector(n, c, list(vecinit) if r < 0.5 else (tuple(vecinit) if r < 0.7 else np.asarray(vecinit)))
+        if suffix:
+            rest = gate_objects(n, suffix)
+            st = st.with_gates_applied(list(rest.gates) if rng.random() < 0.7 else rest)
+        tr = list
+        if form == "primitive":
+            st = st.with_primitive_circuit()
+            tr = angles
+        ctx.count("numeric.param_state_form", form + ("+compiled" if compiled else ""))
+        return st, tr
+
+    def pform(p):
+        r = rng.random()
+        if not p or r < 0.5:
+            return list(p)
+        return tuple(p) if r < 0.75 else np.array(p)
 
     cmp = 0
     ro = real_est(rng, o)
     for name, f in pe.items():
         if nparams == 0 and "general" in name:
             continue
-        st = mk(rng.random() < 0.4)
+        try:
+            st, tr = mk(rng.random() < 0.4)
+        except Exception as e:  # noqa: BLE001
+            ctx.witness("raises:parametric-state-construction", f"building a parametric state raises {exc_name(e)} on a valid input", inp, str(e)[:300])
+            continue
         for p, w in zip(pvs, want):
-            pp = np.array(p) if (rng.random() < 0.3 and nparams > 0) else list(p)
+            q = tr(p)
+            if not q and "general" in name:
+                continue
             try:
-                r = f(ro, st, pp)
-                bound = vec(ro, st.bind_parameters(list(p)))
+                r = f(ro, st, pform(q))
+                bound = vec(ro, st.bind_parameters(list(q)))
                 cmp += 1
                 ctx.count("numeric.variant", name)
                 if abs(complex(r.value) - w) > tl or r.error != 0.0:
                     ctx.witness(f"wrong-value:{name}", f"{name} differs from the oracle at the bound parameters", inp,
-                                {"got": str(r), "want": str(w), "param": p})
+                                {"got": str(r), "want": str(w), "param": p, "passed": q})
                 if abs(complex(bound.value) - complex(r.value)) > tl:
                     ctx.witness(f"parametric-vs-bound:{name}", f"{name}(p) differs from estimating bind_parameters(p)", inp,
-                                {"parametric": str(r), "bound": str(bound), "param": p})
+                                {"parametric": str(r), "bound": str(bound), "param": p, "passed": q})
             except Exception as e:  # noqa: BLE001
                 ctx.witness(f"raises:{name}", f"{name} raises {exc_name(e)} on a valid input", inp, str(e)[:300])
     for name, f in cpe.items():
         if nparams == 0 and "general" in name:
             continue
-        st = mk(rng.random() < 0.4)
         try:
-            rs = list(f(ro, st, [list(p) for p in pvs]))
+            st, tr = mk(rng.random() < 0.4)
+            qs = [tr(p) for p in pvs]
+            if not qs[0] and "general" in name:
+                continue
+            r = rng.random()
+            parg = [pform(q) for q in qs] if r < 0.6 else (tuple(tuple(q) for q in qs) if r < 0.8 or not qs[0] else np.array(qs))
+            rs = list(f(ro, st, parg))
             cmp += 1
             ctx.count("numeric.variant", name)
             if len(rs) != len(want) or any(abs(complex(r.value) - w) > tl or r.error != 0.0 for r, w in zip(rs, want)):
-                ctx.witness(f"wrong-value:{name}", f"{name} differs from the oracle", inp, {"got": str(rs), "want": str(want)})
+                ctx.witness(f"wrong-value:{name}", f"{name} differs from the oracle", inp, {"got": str(rs), "want": str(want), "passed": str(qs)})
         except Exception as e:  # noqa: BLE001
             ctx.witness(f"raises:{name}", f"{name} raises {exc_name(e)} on a valid input", inp, str(e)[:300])
     ctx.case(("numeric-param", json.dumps(inp, default=str)[:400]), nontrivial=nparams > 0)
@@ -1453,6 +1584,576 @@ def numeric(ctx: Ctx, budget_s: float, min_cases: int):
             break
     ctx.extra["numeric_comparisons"] = cmp
     ctx.extra["numeric_batches"] = i
+
+
+# ---------------------------------------------------------------------------
+# G  generator extensions judged by independent oracles
+# ---------------------------------------------------------------------------
+def simulator_eval(ctx: Ctx, rng, spc, inp):
+    """quri_parts.qulacs.simulator on one plain-data state vs the oracle vector: `evaluate_state_to_vector`, `run_circuit`
+    (input left untouched), the density matrix with the empty noise model, `get_marginal_probability`"""
+    import numpy as np
+
+    try:
+        import quri_parts.qulacs.simulator as sim
+        from quri_parts.circuit.noise import NoiseModel
+    except Exception as e:  # noqa: BLE001
+        ctx.disagree("simulator:import", "quri_parts.qulacs.simulator", exc_name(e), "importable")
+        return 0
+    n = spc["n"]
+    psi = c04ref.state_vector(spc)
+    sinp = {"kind": "simulator", "state": spc}
+    cmp = 0
+    st = None
+    try:
+        st = real_state(rng, spc, compiled=rng.random() < 0.3)
+        out = sim.evaluate_state_to_vector(st)
+        v = np.asarray(out.vector)
+        cmp += 1
+        if v.shape != psi.shape or np.abs(v - psi).max() > 1e-9 or out.qubit_count != n or len(out.circuit.gates) != 0:
+            ctx.witness("wrong-vector:evaluate_state_to_vector", "evaluate_state_to_vector differs from circuit · initial vector "
+                        "(or keeps gates on the evaluated state)", sinp, {"got": str(v.tolist())[:400], "want": str(psi.tolist())[:400],
+                                                                          "gates_left": len(out.circuit.gates)})
+    except Exception as e:  # noqa: BLE001
+        ctx.witness("raises:evaluate_state_to_vector", f"evaluate_state_to_vector raises {exc_name(e)} on a valid state", sinp, str(e)[:300])
+    try:
+        c = gate_objects(n, spc["gates"])
+        r = rng.random()
+        if r < 0.3:
+            carg = c.freeze()
+        elif r < 0.6:
+            from quri_parts.qulacs.circuit.compiled_circuit import compile_circuit
+
+            carg = compile_circuit(c)
+        else:
+            carg = c
+        init = np.zeros(2**n, dtype=complex)
+        if spc.get("vec") is None:
+            init[0] = 1.0
+        else:
+            init[:] = spc["vec"]
+        keep = init.copy()
+        v = np.asarray(sim.run_circuit(carg, init))
+        cmp += 1
+        if v.shape != psi.shape or np.abs(v - psi).max() > 1e-9 or not np.array_equal(init, keep):
+            ctx.witness("wrong-vector:run_circuit", "run_circuit differs from circuit · initial vector (or changes its input)", sinp,
+                        {"got": str(v.tolist())[:400], "want": str(psi.tolist())[:400], "input_unchanged": bool(np.array_equal(init, keep))})
+    except Exception as e:  # noqa: BLE001
+        ctx.witness("raises:run_circuit", f"run_circuit raises {exc_name(e)} on a valid input", sinp, str(e)[:300])
+    f = getattr(sim, "_evaluate_qp_state_to_qulacs_state", None)
+    if f is not None and st is not None and rng.random() < 0.5:
+        try:
+            rho = np.asarray(f(st, NoiseModel()).get_matrix())
+        except Exception as e:  # noqa: BLE001  (private helper: a changed signature is a correspondence difference)
+            ctx.disagree("simulator:density-matrix-helper", sinp, exc_name(e), "a qulacs.DensityMatrix")
+            rho = None
+        if rho is not None:
+            cmp += 1
+            want = np.outer(psi, psi.conj())
+            if rho.shape != want.shape or np.abs(rho - want).max() > 1e-9:
+                ctx.witness("wrong-density-matrix:simulator", "the density matrix simulated with the empty noise model is not |psi><psi|",
+                            sinp, {"max_abs_diff": float(np.abs(rho - want).max()) if rho.shape == want.shape else str(rho.shape)})
+    measured = {q: rng.randint(0, 1) for q in range(n) if rng.random() < 0.5} or {rng.randrange(n): rng.randint(0, 1)}
+    if rng.random() < 0.5:
+        measured = dict(sorted(measured.items(), reverse=True))
+    want_p = float(sum(abs(psi[i]) ** 2 for i in range(2**n) if all(((i >> q) & 1) == b for q, b in measured.items())))
+    try:
+        got_p = float(sim.get_marginal_probability(psi.copy(), measured))
+        cmp += 1
+        if abs(got_p - want_p) > 1e-9:
+            ctx.witness("wrong-value:get_marginal_probability", "get_marginal_probability differs from the sum of |amplitude|^2 over "
+                        "the basis states with the given bits", {"kind": "marginal", "state": spc, "measured": {str(q): b for q, b in measured.items()}},
+                        {"got": got_p, "want": want_p})
+    except Exception as e:  # noqa: BLE001
+        ctx.witness("raises:get_marginal_probability", f"get_marginal_probability raises {exc_name(e)} on a valid input",
+                    {"kind": "marginal", "state": spc, "measured": {str(q): b for q, b in measured.items()}}, str(e)[:300])
+    ctx.count("numeric.variant", "simulator")
+    return cmp
+
+
+def _pm_save(sp):
+    try:
+        return dict(sp._pauli_map)
+    except Exception:  # noqa: BLE001
+        return None
+
+
+def _pm_restore(sp, saved):
+    if saved is not None:
+        try:
+            sp._pauli_map.clear()
+            sp._pauli_map.update(saved)
+        except Exception:  # noqa: BLE001
+            pass
+
+
+def sparse_format_eval(ctx: Ctx, rng, inp):
+    """one history of get_sparse_matrix calls in several formats on the same module state; every result is judged"""
+    import numpy as np
+
+    import quri_parts.core.operator.sparse as sp
+    from quri_parts.core.operator import get_sparse_matrix
+
+    saved = _pm_save(sp)
+    done = []
+    try:
+        for enc, narg, fmt in inp["calls"]:
+            e = dec_est(enc)
+            terms = est_terms(e)
+            nn = narg if narg is not None else max(q + 1 for l, _ in terms for q, _ in l)
+            want = c04ref.operator_matrix([(l, cplx(c)) for l, c in terms], nn)
+            done.append([enc, narg, fmt])
+            hinp = {"kind": "sparse-format-history", "calls": list(done)}
+            try:
+                ro = real_est(rng, e)
+                r = rng.random()
+                if fmt == "csc" and r < 0.4:
+                    m = get_sparse_matrix(ro, narg) if narg is not None or r < 0.2 else get_sparse_matrix(ro)
+                elif r < 0.7:
+                    m = get_sparse_matrix(ro, narg, fmt)
+                else:
+                    m = get_sparse_matrix(ro, n_qubits=narg, format=fmt)
+                a = np.asarray(m.toarray())
+            except Exception as ex:  # noqa: BLE001
+                ctx.witness("raises:get_sparse_matrix", f"get_sparse_matrix raises {exc_name(ex)} on a valid request (last call of the history)",
+                            hinp, str(ex)[:300])
+                continue
+            ctx.count("sparse.format", f"{fmt}:" + ("as-requested" if getattr(m, "format", None) == fmt else f"returned-{getattr(m, 'format', '?')}"))
+            if a.shape != want.shape or np.abs(a - want).max() > 1e-12:
+                ctx.witness("wrong-matrix:get_sparse_matrix", "get_sparse_matrix differs from the little-endian matrix of the operator "
+                            "(last call of the history)", hinp, {"got": str(a.tolist())[:400], "want": str(want.tolist())[:400]})
+            else:
+                # sparse-matrix evaluation on a vector
+                psi = np.array([complex(rng.gauss(0, 1), rng.gauss(0, 1)) for _ in range(2**nn)])
+                got = complex(np.vdot(psi, m @ psi))
+                w = complex(np.vdot(psi, want @ psi))
+                if abs(got - w) > 1e-9 * (1 + abs(w)):
+                    ctx.witness("wrong-value:sparse", "<psi|get_sparse_matrix(O, n, format)|psi> differs from the oracle", hinp, {"got": str(got), "want": str(w)})
+    finally:
+        _pm_restore(sp, saved)
+    ctx.case(("sparse-format", json.dumps(inp["calls"])), nontrivial=len({c[2] for c in inp["calls"]}) > 1)
+
+
+def k_sparse_formats(ctx: Ctx):
+    rng = ctx.rng
+    for _ in range(ctx.n(150, 1500)):
+        calls = []
+        n = rng.randint(1, 3)
+        pool = []
+        for _ in range(rng.randint(1, 5)):
+            if pool and rng.random() < 0.4:
+                e = rng.choice(pool)  # the same operator again in another (or the same) format
+            else:
+                e = rand_est(rng, n)
+                if rng.random() < 0.3:
+                    # single-qubit labels / a one-qubit register: the table entry itself is what kron-reduce returns
+                    e = ("L", ((rng.randrange(n), rng.choice([1, 2, 3])),))
+                pool.append(e)
+            terms = est_terms(e)
+            has_support = any(l for l, _ in terms)
+            narg = n if (not has_support or rng.random() < 0.7) else None
+            fmt = rng.choice(FORMATS + ["csc", "csr"])
+            calls.append([enc_est(e), narg, fmt])
+        sparse_format_eval(ctx, rng, {"kind": "sparse-format-history", "calls": calls})
+    ctx.traces += 1
+
+
+def convert_gate_eval(ctx: Ctx, rng, inp):
+    """convert_gate on one gate: the returned Qulacs gate applied to a vector vs the oracle's gate matrix"""
+    import numpy as np
+    import qulacs
+
+    from quri_parts.qulacs.circuit import convert_gate
+
+    n, g, vec = inp["n"], inp["gate"], inp["vec"]
+    want = c04ref.state_vector(dict(n=n, vec=vec, gates=[g]))
+    try:
+        gate = gate_objects(n, [g]).gates[0]
+        qg = convert_gate(gate)
+        qc = qulacs.QuantumCircuit(n)
+        qc.add_gate(qg)
+        qs = qulacs.QuantumState(n)
+        qs.load(list(np.array(vec, dtype=complex)))
+        qc.update_quantum_state(qs)
+        got = np.asarray(qs.get_vector())
+    except Exception as e:  # noqa: BLE001
+        ctx.witness(f"raises:convert_gate:{g['name']}", f"convert_gate raises {exc_name(e)} on a supported gate", inp, str(e)[:300])
+        return
+    ctx.count("convert_gate", g["name"])
+    ctx.case(("convert-gate", g["name"], tuple(g["t"]), tuple(g.get("c", ())), tuple(g.get("pauli", ()))), nontrivial=True)
+    if got.shape != want.shape or np.abs(got - want).max() > 1e-9:
+        ctx.witness(f"convert_gate:{g['name']}", "the Qulacs gate returned by convert_gate acts differently from the gate it converts "
+                    "(rotation sign, index order, matrix)", inp, {"got": str(got.tolist())[:400], "want": str(want.tolist())[:400]})
+
+
+ALL_PLAIN = ["Identity", "X", "Y", "Z", "H", "S", "Sdag", "SqrtX", "SqrtXdag", "SqrtY", "SqrtYdag", "T", "Tdag", "RX", "RY", "RZ",
+             "U1", "U2", "U3", "CNOT", "CZ", "SWAP", "TOFFOLI", "Pauli", "PauliRotation", "UnitaryMatrix"]
+
+
+def gate_of_kind(rng, n, nm):
+    if nm in ("RX", "RY", "RZ", "U1"):
+        return dict(name=nm, t=[rng.randrange(n)], params=[rng.uniform(-7, 7)])
+    if nm == "U2":
+        return dict(name=nm, t=[rng.randrange(n)], params=[rng.uniform(-4, 4), rng.uniform(-4, 4)])
+    if nm == "U3":
+        return dict(name=nm, t=[rng.randrange(n)], params=[rng.uniform(-4, 4) for _ in range(3)])
+    if nm in ("CNOT", "CZ"):
+        a, b = rng.sample(range(n), 2)
+        return dict(name=nm, c=[a], t=[b])
+    if nm == "SWAP":
+        return dict(name=nm, t=rng.sample(range(n), 2))
+    if nm == "TOFFOLI":
+        a, b, c = rng.sample(range(n), 3)
+        return dict(name=nm, c=[a, b], t=[c])
+    if nm in ("Pauli", "PauliRotation"):
+        t = rng.sample(range(n), rng.randint(1, n))
+        g = dict(name=nm, t=t, pauli=[rng.choice([1, 2, 3]) for _ in t])
+        if nm == "PauliRotation":
+            g["params"] = [rng.uniform(-7, 7)]
+        return g
+    if nm == "UnitaryMatrix":
+        k = rng.randint(1, min(n, 3))
+        return dict(name=nm, t=rng.sample(range(n), k), um=dense.random_unitary(rng, 2**k).tolist())
+    return dict(name=nm, t=[rng.randrange(n)])
+
+
+def k_convert_gate(ctx: Ctx):
+    rng = ctx.rng
+    reps = ctx.n(8, 60)
+    for nm in ALL_PLAIN:
+        for _ in range(reps):
+            lo = 3 if nm == "TOFFOLI" else (2 if nm in ("CNOT", "CZ", "SWAP") else 1)
+            n = rng.randint(lo, 4)
+            g = gate_of_kind(rng, n, nm)
+            v = [complex(rng.gauss(0, 1), rng.gauss(0, 1)) for _ in range(2**n)]
+            nrm = math.sqrt(sum(abs(x) ** 2 for x in v))
+            convert_gate_eval(ctx, rng, {"kind": "convert-gate", "n": n, "gate": g, "vec": [x / nrm for x in v]})
+    ctx.traces += 1
+
+
+def k_rejections(ctx: Ctx):
+    """documented rejections: the call must raise (ValueError where the code documents it); a call that returns normally is
+    a concrete input on which an ill-defined request is mis-handled instead of rejected"""
+    import numpy as np
+
+    import quri_parts.circuit as qc
+    from quri_parts.circuit import ParametricQuantumCircuit, QuantumCircuit, QuantumGate
+    from quri_parts.core.operator import get_sparse_matrix
+    from quri_parts.core.state import GeneralCircuitQuantumState, ParametricCircuitQuantumState, ParametricQuantumStateVector, QuantumStateVector
+    from quri_parts.qulacs.circuit import convert_gate, convert_parametric_circuit
+    from quri_parts.qulacs.circuit.compiled_circuit import compile_parametric_circuit
+
+    rng = ctx.rng
+    n = rng.randint(1, 3)
+    c = QuantumCircuit(n)
+    c.add_H_gate(0)
+    pc = ParametricQuantumCircuit(n)
+    pc.add_ParametricRX_gate(0)
+    other = n + rng.choice([1, 2]) if rng.random() < 0.7 or n == 1 else n - 1
+    wrong_dim = rng.choice([2**n - 1, 2**n + 1, 2 ** (n + 1), max(1, 2 ** (n - 1))])
+    pname = rng.choice(["ParametricRX", "ParametricRY", "ParametricRZ"])
+    cases = [
+        ("convert_gate(parametric gate)", "ValueError", lambda: convert_gate(getattr(qc, pname)(0))),
+        ("convert_gate(ParametricPauliRotation)", "ValueError", lambda: convert_gate(qc.ParametricPauliRotation([0], [1]))),
+        ("convert_gate(unknown gate name)", "ValueError", lambda: convert_gate(QuantumGate("Foo", (0,)))),
+        ("convert_parametric_circuit(non-parametric circuit)", "ValueError", lambda: convert_parametric_circuit(c)),
+        ("compile_parametric_circuit(non-parametric circuit)", "ValueError", lambda: compile_parametric_circuit(c)),
+        (f"ParametricCircuitQuantumState({other}, {n}-qubit circuit)", "ValueError", lambda: ParametricCircuitQuantumState(other, pc)),
+        (f"ParametricQuantumStateVector({other}, {n}-qubit circuit)", "ValueError", lambda: ParametricQuantumStateVector(other, pc)),
+        (f"GeneralCircuitQuantumState({other}, {n}-qubit circuit)", "ValueError", lambda: GeneralCircuitQuantumState(other, c)),
+        (f"QuantumStateVector({n}, vector of length {wrong_dim})", "ValueError", lambda: QuantumStateVector(n, [1.0] + [0.0] * (wrong_dim - 1))),
+        (f"ParametricQuantumStateVector({n}, circuit, vector of length {wrong_dim})", "ValueError",
+         lambda: ParametricQuantumStateVector(n, pc, [1.0] + [0.0] * (wrong_dim - 1))),
+        (f"run_circuit({n}-qubit circuit, vector of length {wrong_dim})", "ValueError",
+         lambda: __import__("quri_parts.qulacs.simulator", fromlist=["run_circuit"]).run_circuit(c, np.array([1.0] + [0.0] * (wrong_dim - 1), dtype=complex))),
+        ("get_sparse_matrix(a string)", "AssertionError", lambda: get_sparse_matrix("X0", 1)),
+        ("get_sparse_matrix(PAULI_IDENTITY) without n_qubits", "AssertionError", lambda: get_sparse_matrix(real_label(()))),
+        (f"get_sparse_matrix(Z{n}, {n})", "AssertionError", lambda: get_sparse_matrix(real_label(((n, 3),)), n)),
+        ("get_sparse_matrix(X0, 1, format='xyz')", None, lambda: get_sparse_matrix(real_label(((0, 1),)), 1, "xyz")),
+        ("evaluate_state_to_vector(parametric state)", "TypeError",
+         lambda: __import__("quri_parts.qulacs.simulator", fromlist=["evaluate_state_to_vector"]).evaluate_state_to_vector(ParametricCircuitQuantumState(n, pc))),
+    ]
+    for what, cls, f in cases:
+        try:
+            r = f()
+            out = "returned " + type(r).__name__
+        except Exception as e:  # noqa: BLE001
+            out = exc_name(e)
+        ctx.traces += 1
+        ctx.case(("rejection", what), nontrivial=True)
+        if out.startswith("returned"):
+            ctx.witness("not-rejected:" + what.split("(")[0], f"{what} is accepted instead of being rejected with {cls or 'an exception'}",
+                        {"kind": "rejection", "call": what}, out)
+        elif cls is not None and out != cls:
+            ctx.disagree("rejection", what, out, cls)
+
+
+def compiled_history_eval(ctx: Ctx, rng, inp):
+    """public accessors of compiled circuits inside a history of estimations: the copies handed out may be changed freely,
+    one compiled circuit may serve several states and estimators, in any order, and every value is the oracle's"""
+    import numpy as np
+
+    import quri_parts.qulacs.estimator as qe
+    from quri_parts.core.state import GeneralCircuitQuantumState, ParametricCircuitQuantumState, ParametricQuantumStateVector, QuantumStateVector
+    from quri_parts.qulacs.circuit.compiled_circuit import compile_circuit, compile_parametric_circuit
+    from quri_parts.qulacs.simulator import evaluate_state_to_vector
+
+    n = inp["n"]
+    o = dec_est(inp["op"])
+    terms = [(l, cplx(c)) for l, c in est_terms(o)]
+    tl = tol(est_terms(o))
+    vest = qe.create_qulacs_vector_estimator()
+    cest = qe.create_qulacs_vector_concurrent_estimator()
+    gest = qe.create_qulacs_general_vector_estimator()
+    try:
+        if inp["circuit"][0] == "plain":
+            gates = inp["circuit"][1]
+            cc = compile_circuit(gate_objects(n, gates))
+            for step in inp["steps"]:
+                if step[0] == "tamper":
+                    q = cc.qulacs_circuit
+                    q.add_X_gate(0)
+                    q.add_H_gate(n - 1)
+                    continue
+                vecs = step[1]
+                states = [GeneralCircuitQuantumState(n, cc) if v is None else QuantumStateVector(n, v, cc) for v in vecs]
+                want = [c04ref.expectation(terms, dict(n=n, vec=v, gates=gates)) for v in vecs]
+                ro = real_est(rng, o)
+                how = step[0]
+                if how == "one":
+                    got = [complex(vest(ro, s).value) for s in states]
+                elif how == "conc":
+                    got = [complex(r.value) for r in cest([ro], states)]
+                elif how == "general":
+                    got = [complex(r.value) for r in gest(ro, states)]
+                else:
+                    got = []
+                    for s, v in zip(states, vecs):
+                        psi = np.asarray(evaluate_state_to_vector(s).vector)
+                        got.append(complex(np.vdot(psi, c04ref.operator_matrix(terms, n) @ psi)))
+                if len(got) != len(want) or any(abs(g - w) > tl for g, w in zip(got, want)):
+                    ctx.witness("compiled-history:plain", "an estimation on a compiled circuit inside a history (copies of its Qulacs circuit "
+                                "changed by the caller, several states sharing it) differs from the oracle", inp,
+                                {"step": step[0], "got": str(got), "want": str(want)})
+        else:
+            kind, nparams, gates = inp["circuit"][1]
+            pc = build_pcirc(kind, n, nparams, gates)
+            cc = compile_parametric_circuit(pc)
+            spec = dict(n=n, gates=oracle_gates(kind, gates), vec=inp.get("vec"))
+            st = ParametricCircuitQuantumState(n, cc) if inp.get("vec") is None else ParametricQuantumStateVector(n, cc, inp["vec"])
+            pest = qe.create_qulacs_vector_parametric_estimator()
+            cpest = qe.create_qulacs_vector_concurrent_parametric_estimator()
+            for step in inp["steps"]:
+                if step[0] == "tamper":
+                    q = cc.qulacs_circuit
+                    for i in range(q.get_parameter_count()):
+                        q.set_parameter(i, 1.25 + i)
+                    q.add_X_gate(0)
+                    continue
+                if step[0] == "mapper":
+                    p = step[1]
+                    got = [float(x) for x in cc.param_mapper(p)]
+                    want_angles = [-a for a in _angles(spec["gates"], p)]
+                    if len(got) != len(want_angles) or any(abs(g - w) > 1e-9 for g, w in zip(got, want_angles)):
+                        ctx.witness("compiled-history:param_mapper", "the param_mapper of a compiled parametric circuit does not give the "
+                                    "negated rotation angles of the gates", inp, {"params": p, "got": got, "want": want_angles})
+                    continue
+                ps = step[1]
+                want = [c04ref.expectation(terms, spec, p) for p in ps]
+                ro = real_est(rng, o)
+                if step[0] == "one":
+                    got = [complex(pest(ro, st, list(p)).value) for p in ps]
+                elif step[0] == "conc":
+                    got = [complex(r.value) for r in cpest(ro, st, [list(p) for p in ps])]
+                else:
+                    got = [complex(r.value) for r in gest(ro, st, [list(p) for p in ps])]
+                if len(got) != len(want) or any(abs(g - w) > tl for g, w in zip(got, want)):
+                    ctx.witness("compiled-history:parametric", "an estimation on a compiled parametric circuit inside a history (copies "
+                                "changed by the caller, earlier estimations at other parameters) differs from the oracle", inp,
+                                {"step": step[0], "params": ps, "got": str(got), "want": str(want)})
+    except Exception as e:  # noqa: BLE001
+        ctx.witness("raises:compiled-history", f"a history on a compiled circuit raises {exc_name(e)} on valid inputs", inp, str(e)[:300])
+    ctx.case(("compiled-history", json.dumps(inp, default=str)[:300]), nontrivial=True)
+    ctx.count("compiled.history", inp["circuit"][0])
+
+
+def _angles(ogates, p):
+    out, k = [], 0
+    for g in ogates:
+        if g["name"] in c04ref.PARAM_BASE:
+            out.append(p[k] if g.get("lin") is None else c04ref.lin_eval(g["lin"], p))
+            k += 1
+    return out
+
+
+def k_compiled_hist(ctx: Ctx):
+    rng = ctx.rng
+    for _ in range(ctx.n(60, 600)):
+        n = rng.randint(1, 3)
+        o = rand_est(rng, n)
+        if rng.random() < 0.5:
+            gates = rand_gates(rng, n, rng.randint(0, 6))
+            steps = []
+            for _ in range(rng.randint(2, 5)):
+                if rng.random() < 0.3:
+                    steps.append(["tamper"])
+                else:
+                    k = rng.randint(1, 3)
+                    steps.append([rng.choice(["one", "conc", "general", "vector"]), [rand_vector(rng, n) if rng.random() < 0.5 else None for _ in range(k)]])
+            inp = {"kind": "compiled-history", "n": n, "op": enc_est(o), "circuit": ["plain", gates], "steps": steps}
+        else:
+            kind, nparams, gates = rand_pcirc(rng, n)
+            if kind == "U":
+                kind, nparams, gates = "L", *_as_linear(rng, gates)  # only linear-mapped compiled circuits survive inside a state
+            steps = []
+            for _ in range(rng.randint(2, 5)):
+                r = rng.random()
+                if r < 0.25:
+                    steps.append(["tamper"])
+                elif r < 0.4:
+                    steps.append(["mapper", [rng.uniform(-4, 4) for _ in range(nparams)]])
+                else:
+                    how = rng.choice(["one", "conc", "general"]) if nparams > 0 else rng.choice(["one", "conc"])
+                    steps.append([how, [[rng.uniform(-4, 4) for _ in range(nparams)] for _ in range(rng.randint(1, 3))]])
+            inp = {"kind": "compiled-history", "n": n, "op": enc_est(o), "circuit": ["parametric", [kind, nparams, gates]],
+                   "vec": rand_vector(rng, n) if rng.random() < 0.3 else None, "steps": steps}
+        compiled_history_eval(ctx, rng, inp)
+    ctx.traces += 1
+
+
+def _as_linear(rng, gates):
+    """an unbound parametric gate list as a linear-mapped one: gate i gets its own parameter through a random permutation"""
+    pg = [g for g in gates if g["name"].startswith("Parametric")]
+    perm = list(range(len(pg)))
+    rng.shuffle(perm)
+    for g, i in zip(pg, perm):
+        g["lin_int"] = dict(coefs={i: rng.choice([1, 1, 2, -3])}, const=rng.choice([0, 0, 5]))
+    return len(pg), gates
+
+
+# product states: each qubit in an eigenstate of one Pauli; <P> of a Pauli string is a product of signs or 0
+PROD = {"0": ([], 3, 1), "1": (["X"], 3, -1), "+": (["H"], 1, 1), "-": (["X", "H"], 1, -1), "+i": (["H", "S"], 2, 1), "-i": (["H", "Sdag"], 2, -1)}
+PROD_VEC = {"0": (1, 0), "1": (0, 1), "+": (1, 1), "-": (1, -1), "+i": (1, 1j), "-i": (1, -1j)}
+
+
+def prod_expectation(terms, qubits):
+    tot = 0
+    for label, coef in terms:
+        v = 1
+        for q, p in label:
+            _, axis, sign = PROD[qubits[q]]
+            v = v * sign if axis == p else 0
+        tot += coef * v
+    return tot
+
+
+def wide_eval(ctx: Ctx, rng, inp, eps):
+    """registers with two-digit qubit indices (and, for stim, more than 64 qubits): product states, exact values"""
+    import numpy as np
+
+    from quri_parts.circuit import QuantumCircuit
+    from quri_parts.core.operator import get_sparse_matrix
+    from quri_parts.core.state import GeneralCircuitQuantumState
+
+    n, qubits = inp["n"], inp["qubits"]
+    ops = [dec_est(t) for t in inp["ops"]]
+    want = [prod_expectation([(l, cplx(c)) for l, c in est_terms(o)], qubits) for o in ops]
+    tl = max(tol(est_terms(o)) for o in ops)
+
+    def state():
+        c = QuantumCircuit(n)
+        order = list(range(n))
+        if rng.random() < 0.5:
+            order.reverse()
+        for q in order:
+            for nm in PROD[qubits[q]][0]:
+                getattr(c, f"add_{nm}_gate")(q)
+        if rng.random() < 0.3:
+            from quri_parts.qulacs.circuit.compiled_circuit import compile_circuit
+
+            c = compile_circuit(c)
+        return GeneralCircuitQuantumState(n, c)
+
+    for name, ep in eps.items():
+        if ep["be"] == "qulacs" and (n > 12 or (n > 11 and "dm" in name)):
+            continue
+        if ep["be"] == "qulacs" and rng.random() < (0.8 if "dm" in name else 0.5):
+            continue
+        for e in eps.values():
+            e["cache"]._operator_cache.clear()
+        try:
+            rops = [real_est(rng, o) for o in ops]
+            sts = [state()] if (len(rops) == 1 or rng.random() < 0.6) else [state() for _ in rops]
+            got = [(complex(r.value), r.error) for r in ep["conc"](rops, sts)]
+            if rng.random() < 0.3:
+                got1 = [(complex(r.value), r.error) for r in [ep["one"](ro, state()) for ro in rops]]
+                if any(abs(x[0] - y[0]) > tl for x, y in zip(got, got1)):
+                    ctx.witness(f"variants-disagree:{name}", f"{name}: concurrent and single estimator disagree", inp,
+                                {"concurrent": str(got), "single": str(got1)})
+        except Exception as e:  # noqa: BLE001
+            ctx.witness(f"raises:{name}", f"{name} raises {exc_name(e)} on a valid input", inp, str(e)[:300])
+            continue
+        ctx.count("wide.variant", name)
+        if len(got) != len(want) or any(abs(g[0] - w) > tl or g[1] != 0.0 for g, w in zip(got, want)):
+            ctx.witness(f"wrong-value:{name}", f"{name} differs from the exact value on a product state of a wide register", inp,
+                        {"got": str(got), "want": str(want)})
+    if n <= 12:
+        psi = np.array([1.0 + 0j])
+        for q in range(n):
+            a = np.array(PROD_VEC[qubits[q]], dtype=complex)
+            psi = np.kron(a / np.linalg.norm(a), psi)  # qubit q is bit q of the index
+        try:
+            from quri_parts.qulacs.simulator import evaluate_state_to_vector
+
+            v = np.asarray(evaluate_state_to_vector(state()).vector)
+            if np.abs(v - psi).max() > 1e-9:
+                ctx.witness("wrong-vector:evaluate_state_to_vector", "evaluate_state_to_vector differs from the product state", inp,
+                            {"max_abs_diff": float(np.abs(v - psi).max())})
+        except Exception as e:  # noqa: BLE001
+            ctx.witness("raises:evaluate_state_to_vector", f"evaluate_state_to_vector raises {exc_name(e)} on a valid state", inp, str(e)[:300])
+        for o, w in zip(ops, want):
+            try:
+                fmt = rng.choice(["csc", "csr", "coo"])
+                m = get_sparse_matrix(real_est(rng, o), n, fmt)
+                got = complex(np.vdot(psi, m @ psi))
+            except Exception as e:  # noqa: BLE001
+                got = f"raises {exc_name(e)}"
+            if not isinstance(got, complex) or abs(got - w) > tl:
+                ctx.witness("wrong-value:sparse", "<psi|get_sparse_matrix(O, n)|psi> differs from the exact value on a product state", inp,
+                            {"got": str(got), "want": str(w)})
+    ctx.case(("wide", json.dumps(inp)), nontrivial=any(abs(w) > 1e-9 for w in want))
+    ctx.count("wide.n", "<=12" if n <= 12 else ("<=64" if n <= 64 else ">64"))
+
+
+def k_wide(ctx: Ctx):
+    import quri_parts.core.operator.sparse as sp
+
+    rng = ctx.rng
+    eps = entry_points()
+    eps.pop("__note__", None)
+    saved = _pm_save(sp)
+    try:
+        for i in range(ctx.n(16, 120)):
+            n = rng.choice([11, 11, 12]) if i % 2 == 0 else rng.choice([13, 20, 33, 64, 65, 70])
+            qubits = [rng.choice(list(PROD)) for _ in range(n)]
+            ops = []
+            for _ in range(rng.randint(1, 3)):
+                terms, seen = [], set()
+                for _ in range(rng.randint(1, 4)):
+                    qs = sorted(set(rng.sample(range(n), rng.randint(1, 4)) + ([rng.randrange(10, n)] if rng.random() < 0.7 else [])))
+                    l = tuple((q, PROD[qubits[q]][1] if rng.random() < 0.85 else rng.choice([1, 2, 3])) for q in qs)
+                    if l not in seen:
+                        seen.add(l)
+                        terms.append((l, rand_coef(rng, allow_zero=False)))
+                if rng.random() < 0.3:
+                    terms.append(((), rand_coef(rng)))
+                ops.append(("L", terms[0][0]) if rng.random() < 0.15 else ("O", terms))
+            wide_eval(ctx, rng, {"kind": "wide-product", "n": n, "qubits": qubits, "ops": [enc_est(o) for o in ops]}, eps)
+    finally:
+        _pm_restore(sp, saved)
+        for e in eps.values():
+            e["cache"]._operator_cache.clear()
+    ctx.traces += 1
 
 
 # ---------------------------------------------------------------------------
@@ -1535,6 +2236,40 @@ def witnesses(ctx: Ctx):
                     inp3, {"ratio": str(ratio)})
     else:
         ctx.disagree("witness:sparse-shared", inp3, f"shared={shared} ratio={ratio}", "model: fresh 4 (Props.C04.sparse_shared_table_witness)")
+    # W4: gates added to a compiled circuit after compilation (no Lean counterpart: found by the oracle comparison)
+    inp4 = {"kind": "compiled-then-extended", "history": ["c = QuantumCircuit(2); c.add_H_gate(1)", "cc = compile_circuit(c)", "cc.add_X_gate(0)",
+                                                           "s = GeneralCircuitQuantumState(2, cc)", "create_qulacs_vector_estimator()(Z0, s)"]}
+    try:
+        from quri_parts.circuit import QuantumCircuit
+        from quri_parts.circuit.noise import NoiseModel
+        from quri_parts.core.state import GeneralCircuitQuantumState
+        from quri_parts.qulacs.circuit.compiled_circuit import compile_circuit
+
+        c4 = QuantumCircuit(2)
+        c4.add_H_gate(1)
+        cc4 = compile_circuit(c4)
+        cc4.add_X_gate(0)  # a compiled circuit that rejects this is not affected
+        s4 = GeneralCircuitQuantumState(2, cc4)
+        doc = [dict(name=g.name, t=list(g.target_indices), c=list(g.control_indices)) for g in s4.circuit.gates]
+        z0 = real_label(((0, 3),))
+        want4 = c04ref.expectation([(((0, 3),), 1.0)], dict(n=2, vec=None, gates=doc))
+        got4 = complex(qe.create_qulacs_vector_estimator()(z0, s4).value)
+        dm4 = complex(qe.create_qulacs_density_matrix_estimator(NoiseModel())(z0, s4).value)
+        plain4 = complex(qe.create_qulacs_vector_estimator()(z0, GeneralCircuitQuantumState(2, QuantumCircuit(2, gates=s4.circuit.gates))).value)
+        ctx.extra["compiled_then_extended"] = {"documented_gates": [g["name"] for g in doc], "vector": str(got4), "dm": str(dm4), "plain": str(plain4)}
+        stale4 = c04ref.expectation([(((0, 3),), 1.0)], dict(n=2, vec=None, gates=[dict(name="H", t=[1])]))  # the circuit as compiled
+        if abs(got4 - want4) > 1e-9 and not (abs(got4 - stale4) < 1e-9 and abs(plain4 - want4) < 1e-9):
+            # some other failure than the recorded one (which is exactly: the value of the circuit as compiled)
+            ctx.witness("compiled-then-extended:unexpected-value", "the vector estimator on a compiled circuit extended after compilation gives "
+                        "neither the value of the documented gates nor that of the circuit as compiled", inp4,
+                        {"vector_estimator": str(got4), "oracle": str(want4), "as_compiled": str(stale4), "plain": str(plain4)})
+        elif abs(got4 - want4) > 1e-9:
+            ctx.witness(K_COMPILED, "compile_circuit returns a mutable circuit: a gate added after compilation is listed in state.circuit.gates "
+                        "but the vector estimator still simulates the circuit as compiled", inp4,
+                        {"state.circuit.gates": [g["name"] + str(g["t"]) for g in doc], "vector_estimator": str(got4), "oracle": str(want4),
+                         "density_matrix_estimator": str(dm4), "vector_estimator_on_plain_circuit_with_the_same_gates": str(plain4)})
+    except Exception as e:  # noqa: BLE001
+        ctx.extra["compiled_then_extended"] = f"raises {exc_name(e)}"
     # the mirror image outside the anchored files (recorded, not a C04 witness)
     try:
         from quri_parts.circuit import LinearMappedParametricQuantumCircuit
@@ -1621,6 +2356,19 @@ def replay_file(ctx: Ctx, path):
             if real != doc_batch(a, b):
                 ctx.witness(w["key"], w["what"], inp, {"real": real, "documented": doc_batch(a, b)})
             done += 1
+        elif kind == "sparse-format-history":
+            sparse_format_eval(ctx, ctx.rng, inp)
+            done += 1
+        elif kind == "convert-gate":
+            if inp["gate"].get("um") is not None:
+                inp["gate"]["um"] = [[complex(str(x).replace(" ", "")) for x in row] for row in inp["gate"]["um"]]
+            inp["vec"] = [complex(str(x).replace(" ", "")) for x in inp["vec"]]
+            convert_gate_eval(ctx, ctx.rng, inp)
+            done += 1
+        elif kind == "wide-product":
+            for _ in range(4):
+                wide_eval(ctx, ctx.rng, inp, eps)
+            done += 1
     ctx.extra["replayed_inputs"] = done
 
 
@@ -1636,6 +2384,9 @@ def run(ctx: Ctx, replay=None) -> int:
         "executor=None (chunking with an executor is C11's subject)",
         "density-matrix estimators with the empty NoiseModel only",
         "stim estimator on Clifford circuits (named Clifford gates, CNOT/CZ/SWAP, Pauli gates) only",
+        "wide registers (11-12 qubits for Qulacs, up to 70 for stim): product states of single-qubit Pauli eigenstates only",
+        "get_sparse_matrix formats: values (and <psi|M|psi>) are judged, the storage class of the returned matrix is only counted",
+        "samplers of quri_parts.qulacs.simulator are not C04's subject (C07/C08/C11)",
     ]
     mods = ["QuriVerif.Props.C04"]
     ok = ctx.prove(LEAN_TARGETS, mods)
@@ -1657,6 +2408,12 @@ def run(ctx: Ctx, replay=None) -> int:
         k_general(ctx)
         k_param(ctx)
         k_sparse(ctx)
+    with ctx.timed("forms"):
+        k_rejections(ctx)
+        k_convert_gate(ctx)
+        k_sparse_formats(ctx)
+        k_compiled_hist(ctx)
+        k_wide(ctx)
     with ctx.timed("numeric"):
         broken = bool(ctx.failed_obligations or ctx.disagreements)
         budget = (10 if ctx.quick() else 200) * (4 if broken else 1)
